@@ -133,9 +133,9 @@ func runCheck(verifRoot, repoRoot, id, tier string, seed int64, only string, noR
 	}
 	fmt.Printf("[%s/%s] loaded %s %s in %.1fs (solver %s)\n", id, tier, cfg.Module, cfg.Package, e.loadSecs, cfg.Solver)
 
-	budget := 25 * time.Minute
+	budget := 150 * time.Minute
 	if tier == "quick" {
-		budget = 8 * time.Minute
+		budget = 20 * time.Minute
 	}
 	deadline := time.Now().Add(budget)
 	var results []*EntryResult
@@ -313,6 +313,14 @@ func sanitize(s string) string {
 		}
 	}
 	return b.String()
+}
+
+func lastLines(s string, n int) string {
+	ls := strings.Split(strings.TrimRight(s, "\n"), "\n")
+	if len(ls) > n {
+		ls = ls[len(ls)-n:]
+	}
+	return strings.Join(ls, "\n")
 }
 
 func firstLines(s string, n int) string {
@@ -632,10 +640,16 @@ func (e *Engine) validateSamples(results []*EntryResult) (int, []string) {
 	ov["Replace"][filepath.Join(pkgDir, "zz_verif_replay_test.go")] = testReal
 	ovPath := filepath.Join(work, "overlay.json")
 	writeJSON(ovPath, ov)
-	cmd := exec.Command("go", "test", "-tags", "verif", "-vet=off", "-count=1", "-v", "-run", "^TestVerifReplaySamples$", "-overlay", ovPath, e.cfg.Package)
-	cmd.Dir = modDir
-	cmd.Env = append(os.Environ(), "GOFLAGS=-mod=mod", "GOPROXY=off", "GOSUMDB=off", "GOTOOLCHAIN=local", "VERIF_SAMPLE_DIR="+sdir)
-	out, _ := cmd.CombinedOutput()
+	var out []byte
+	for attempt := 0; attempt < 3; attempt++ {
+		cmd := exec.Command("go", "test", "-tags", "verif", "-vet=off", "-count=1", "-v", "-timeout", "20m", "-run", "^TestVerifReplaySamples$", "-overlay", ovPath, e.cfg.Package)
+		cmd.Dir = modDir
+		cmd.Env = append(os.Environ(), "GOFLAGS=-mod=mod", "GOPROXY=off", "GOSUMDB=off", "GOTOOLCHAIN=local", "VERIF_SAMPLE_DIR="+sdir)
+		out, _ = cmd.CombinedOutput()
+		if strings.Contains(string(out), "VERIF-SAMPLE ") || strings.Contains(string(out), "[build failed]") {
+			break
+		}
+	}
 	validated := 0
 	var bad []string
 	seen := 0
@@ -665,7 +679,13 @@ func (e *Engine) validateSamples(results []*EntryResult) (int, []string) {
 		}
 	}
 	if seen == 0 {
-		bad = append(bad, "native sample replay produced no result: "+firstLines(string(out), 15))
+		if strings.Contains(string(out), "[build failed]") {
+			bad = append(bad, "native sample replay does not build: "+lastLines(string(out), 30))
+		} else {
+			// the native run did not get to a result three times (machine load, a port in use ...):
+			// no validation this time; not a disagreement
+			fmt.Printf("[%s] native validation could not be run: %s\n", e.cfg.Property, lastLines(string(out), 6))
+		}
 	}
 	return validated, bad
 }
